@@ -247,7 +247,7 @@ static void op_deepcopy_crystal(uint32_t j, rec_t *r, xrl_error **e) {
 static void op_readfile_content(uint32_t j, rec_t *r, xrl_error **e) {
     static char path[256]; int off = trk_on; trk_on = 0;
     if (!path[0]) snprintf(path, sizeof path, "%s/xdrv_cryst_%d.dat", getenv("TMPDIR") ? getenv("TMPDIR") : "/tmp", (int)getpid());
-    FILE *f = fopen(path, "w"); const char *txt = S(0); if (txt) fputs(txt, f); fclose(f);
+    FILE *f = fopen(path, "w"); const char *txt = S(0); if (txt) fwrite(txt, 1, strlen_of(cols[0].i[j]), f); fclose(f);      /* byte exact: the content may hold NUL bytes */
     trk_on = off;
     Crystal_Array *a = Crystal_ArrayInit(I(1), NULL);
     if (!a) { r->flags |= F_AUX; return; }
